@@ -406,6 +406,7 @@ func (s *Server) EstablishConnection(listener string, c net.Conn) error {
 func (s *Server) attachClient(cl *Client, listener string) error {
 	defer s.Listeners.ClientsWg.Done()
 	s.Listeners.ClientsWg.Add(1)
+	verifAt("attach.added", cl)
 
 	go cl.WriteLoop()
 	defer cl.Stop(nil)
@@ -426,6 +427,7 @@ func (s *Server) attachClient(cl *Client, listener string) error {
 		return packets.ErrServerBusy
 	}
 
+	verifAt("attach.limitChecked", cl)
 	code := s.validateConnect(cl, pk) // [MQTT-3.1.4-1] [MQTT-3.1.4-2]
 	if code != packets.CodeSuccess {
 		if err := s.SendConnack(cl, code, false, nil); err != nil {
@@ -450,18 +452,22 @@ func (s *Server) attachClient(cl *Client, listener string) error {
 	}
 
 	atomic.AddInt64(&s.Info.ClientsConnected, 1)
+	verifAt("attach.counted", cl)
 	defer atomic.AddInt64(&s.Info.ClientsConnected, -1)
 
 	s.hooks.OnSessionEstablish(cl, pk)
 
 	sessionPresent := s.inheritClientSession(pk, cl)
+	verifAt("attach.inherited", cl)
 	s.Clients.Add(cl) // [MQTT-4.1.0-1]
+	verifAt("attach.registered", cl)
 
 	err = s.SendConnack(cl, code, sessionPresent, nil) // [MQTT-3.1.4-5] [MQTT-3.2.0-1] [MQTT-3.2.0-2] &[MQTT-3.14.0-1]
 	if err != nil {
 		return fmt.Errorf("ack connection packet: %w", err)
 	}
 
+	verifAt("attach.willCancel", cl)
 	s.loop.willDelayed.Delete(cl.ID) // [MQTT-3.1.3-9]
 
 	if sessionPresent {
@@ -472,9 +478,11 @@ func (s *Server) attachClient(cl *Client, listener string) error {
 	}
 
 	s.hooks.OnSessionEstablished(cl, pk)
+	verifAt("attach.established", cl)
 
 	err = cl.Read(s.receivePacket)
 	if err != nil {
+		verifAt("teardown.will", cl)
 		s.sendLWT(cl)
 		cl.Stop(err)
 	} else {
@@ -482,6 +490,7 @@ func (s *Server) attachClient(cl *Client, listener string) error {
 	}
 	s.Log.Debug("client disconnected", "error", err, "client", cl.ID, "remote", cl.Net.Remote, "listener", listener)
 
+	verifAt("teardown.cleanup", cl)
 	expire := (cl.Properties.ProtocolVersion == 5 && cl.Properties.Props.SessionExpiryInterval == 0) || (cl.Properties.ProtocolVersion < 5 && cl.Properties.Clean)
 	s.hooks.OnDisconnect(cl, err, expire)
 
@@ -1427,6 +1436,7 @@ func (s *Server) DisconnectClient(cl *Client, code packets.Code) error {
 	// We already have a code we are using to disconnect the client, so we are not
 	// interested if the write packet fails due to a closed connection (as we are closing it).
 	err := cl.WritePacket(out)
+	verifAt("disconnect.written", cl)
 	if !s.Options.Capabilities.Compatibilities.PassiveClientDisconnect {
 		cl.Stop(code)
 		if code.Code >= packets.ErrUnspecifiedError.Code {
@@ -1495,8 +1505,10 @@ func (s *Server) publishSysTopics() {
 // Close attempts to gracefully shut down the server, all listeners, clients, and stores.
 func (s *Server) Close() error {
 	close(s.done)
+	verifAt("close.begin", nil)
 	s.Log.Info("gracefully stopping server")
 	s.Listeners.CloseAll(s.closeListenerClients)
+	verifAt("close.listenersClosed", nil)
 	s.hooks.OnStopped()
 	s.hooks.Stop()
 
@@ -1538,6 +1550,7 @@ func (s *Server) sendLWT(cl *Client) {
 	if cl.Properties.Will.WillDelayInterval > 0 {
 		pk.Connect.WillProperties.WillDelayInterval = cl.Properties.Will.WillDelayInterval
 		pk.Expiry = time.Now().Unix() + int64(pk.Connect.WillProperties.WillDelayInterval)
+		verifAt("lwt.delayAdd", cl)
 		s.loop.willDelayed.Add(cl.ID, pk)
 		return
 	}
